@@ -27,7 +27,13 @@
     * D13  a comment that ends the input hands EOF to the pending scan function instead of
            `terminate()`;
     * D41  `"x"^^rdf:langString` / `^^rdf:dirLangString` (explicit datatype, hence no tag) is an error, as
-           in the repaired N-Triples / N-Quads decoders (patch `fix-ttl-explicit-langstring`).
+           in the repaired N-Triples / N-Quads decoders (patch `fix-ttl-explicit-langstring`);
+    * D44  a comment ended at LF only; Turtle 1.1 §6.1 ends it at CR as well (`# c` CR `<a> <b> <c> .`
+           lost the statement; patch `fix-ttl-comment-cr`);
+    * D42  `[ <p> <o> ] <q> <r> ; <s> <t> .` was rejected: the optional predicateObjectList after a
+           blank-node property list in subject position was pushed without its `;`-continuation
+           (patch `fix-ttl-bnpl-subject-semicolon`: `reader_scanStatement_Subject_AnonOrBlankNode`,
+           `reader_triples2_blankNodePropertyList`).
 
   Faithfully kept oddities (not defects of the properties checked here, so not repaired):
     * several closures ignore their `err` argument and look at the zero `DecodedRune`; when they
@@ -35,8 +41,8 @@
       thereby replaced by a later "unexpected rune '\x00'" error;
     * each directive leaks one `reader_scanStatement` frame (the function pushes itself and the
       directive's last closure returns it again); `terminate()` drops them all at the end;
-    * leniencies such as `{ <a> <b> <c> <d> <e> <f> }` (missing `.` in a TriG graph block) and the
-      rejection of `[ <p> <o> ] <q> <r> ; <s> <t> .` (D42, a C08 matter) are reproduced as they are.
+    * leniencies such as `{ <a> <b> <c> <d> <e> <f> }` (missing `.` in a TriG graph block) are
+      reproduced as they are.
 
   Not modelled: text offsets (`commit…` calls, `…Location` fields, D18), directive listeners,
   error message texts (errors are the classes of `EClass`).
@@ -613,7 +619,7 @@ def stepFn (C : Cfg) (e : End) (k : Cont) (x : Ectx) (env : Env) (a : Arg) : FnR
         .ok { cur := some ⟨x, .polRequired⟩, push := [⟨x, .triplesEnd⟩, ⟨x, .polContinue⟩], inp := rest, env := env }
       else
         .ok { cur := some ⟨x, .polRequired⟩,
-              push := [⟨x, .triplesEnd⟩, ⟨x, .pol⟩, ⟨x, .bnplEnd⟩, ⟨x, .polContinue⟩],
+              push := [⟨x, .triplesEnd⟩, ⟨x, .polContinue⟩, ⟨x, .pol⟩, ⟨x, .bnplEnd⟩, ⟨x, .polContinue⟩],
               inp := c :: rest, env := env }
   | .triplesEnd =>
     match a with
@@ -750,7 +756,7 @@ def stepFn (C : Cfg) (e : End) (k : Cont) (x : Ectx) (env : Env) (a : Arg) : FnR
         .ok { cur := some ⟨x, .pol⟩, push := [⟨x, .triplesEnd⟩, ⟨x, .polContinue⟩], inp := rest, env := env }
       else
         .ok { cur := some ⟨x, .pol⟩,
-              push := [⟨x, .triplesEnd⟩, ⟨x, .pol⟩, ⟨x, .bnplEnd⟩, ⟨x, .polContinue⟩],
+              push := [⟨x, .triplesEnd⟩, ⟨x, .polContinue⟩, ⟨x, .pol⟩, ⟨x, .bnplEnd⟩, ⟨x, .polContinue⟩],
               inp := c :: rest, env := env }
 
 /-! ### `scan`: white space and comments before every scan function -/
@@ -764,7 +770,7 @@ inductive Skip where
 def skipWs (C : Cfg) (e : End) : Bool → List Nat → Skip
   | false, [] => .end_
   | true, [] => (match e with | .eof => .end_ | .ioerr => .commentIo)
-  | true, c :: rest => if c = 0x0a then skipWs C e false rest else skipWs C e true rest
+  | true, c :: rest => if c = 0x0a ∨ c = 0x0d then skipWs C e false rest else skipWs C e true rest
   | false, c :: rest =>
     if c = 0x23 then skipWs C e true rest
     else if isWs C c then skipWs C e false rest
@@ -858,8 +864,9 @@ def Cont.weight : Cont → Nat
   | .statement | .subjIRIREF | .subjPName | .subjBNode | .objectPName => 1
   | .triplesBlockQuest => 3
   | .parenTop _ | .parenBlock _ => 16
-  | .tgE1 _ | .triples2BNPL | .subjAnonOrBNPL => 12
-  | .tgBracket _ => 18
+  | .tgE1 _ => 12
+  | .triples2BNPL | .subjAnonOrBNPL => 14
+  | .tgBracket _ => 20
   | _ => 2
 
 /-- Scan functions that, whatever they are called with, consume a rune, fail, or hand over to such
